@@ -183,6 +183,9 @@ func (s *SimSession) SetSubject(sub string) {
 	if s.JWTClaims != nil {
 		s.JWTClaims.Subject = sub
 	}
+	if s.Claims != nil {
+		s.Claims.Subject = sub
+	}
 }
 func (s *SimSession) Clone() fosite.Session {
 	if s == nil {
